@@ -483,7 +483,8 @@ class C19(Prop):
         mk("queue-clear-blocked-writer", ["qnew 1 8 2", "enq 1 1 8", "enq 2 7 8", "qclear", "qstat", "deq 8", "deq 8", "qstat"])
         mk("queue-clear-blocked-writer-cap2", ["qnew 2 8 2", "enq 1 1 8", "enq 1 2 8", "enq 2 1 8", "qclear", "qstat", "enq 1 3 8",
                                                "enq 1 4 8", "qclear", "deq 8", "qstat"])
-        mk("mt-qclear", ["mt qclear 1 3 40 1", "mt qclear 2 4 60 2"])
+        mk("mt-qclear", ["mt qclear 1 3 40 1"])
+        mk("mt-qclear-cap2", ["mt qclear 2 4 60 2"])
         mk("tsan-qclear", ["#tsan", "mt qclear 2 3 40 7"])
         # the real console worker on a pipe: chunk-then-completion, shutdown at every stage of its life
         for mode in (0, 1, 2, 3):
